@@ -423,3 +423,13 @@ v("wrappers-benign-tagged", ["C06"], "cfg.py",
 v("wrappers-benign-bot2", ["C06"], "cfg.py",
   None, None, None,
   edits=[('Slash = namedtuple("Slash", "Y, Z, i")\n', 'Slash = namedtuple("Slash", "Y, Z, i")\n\nBot = namedtuple("Bot", "x, tag")\n'), ("            return x if x in acyclic else (x, \"bot\")", "            return x if x in acyclic else Bot(x, \"bot\")")])
+
+# ------------------------------------------------------------------ round-5 rules: COMPOSE-ARCS (C09), ACCUM-DELTA case split (C03)
+v("compose-arcs-skip-epsloop", ["C09"], "cfg.py", "        for i, (a, _), j, _ in fst.arcs():\n            A.add((i, a, (), j))",
+  "        for i, (a, b), j, _ in fst.arcs():\n            if a == EPSILON and b == EPSILON and i == j:\n                continue\n            A.add((i, a, (), j))", "COMPOSE-ARCS")
+v("compose-arcs-pass2-elif", ["C09"], "cfg.py", "            if b == EPSILON:\n                new.add(w, (i, a, j))\n            else:\n                new.add(w, (i, a, j), b)",
+  "            if b == EPSILON:\n                new.add(w, (i, a, j))\n            elif a != EPSILON:\n                new.add(w, (i, a, j), b)", "COMPOSE-ARCS")
+v("compose-arcs-benign-names", ["C09"], "cfg.py", "        for i, (a, _), j, _ in fst.arcs():\n            A.add((i, a, (), j))",
+  "        for p, (x, _), q, _ in fst.arcs():\n            A.add((p, x, (), q))", None)
+v("derivative-skip-selfloop", ["C03"], "cfg.py", "                        D.add(delta * r.w, slash(r.head, a), *r.body[k + 1 :])\n                else:",
+  "                        D.add(delta * r.w, slash(r.head, a), *r.body[k + 1 :])\n                elif y == r.head and len(r.body) == 1:\n                    pass\n                else:", "ACCUM-DELTA")
